@@ -175,6 +175,19 @@ def run_case(case):
         if not e <= 1e-12:
             viols.append(cm.viol("nuclear attraction matrix differs from the sum of the per-charge arrays by %.3e (relative to sum |terms|)" % e,
                                  "nuclear_vs_sum", e, 1e-12))
+    # the arrays belong to the caller: after the caller has overwritten the first result, the same request must again be answered
+    # with the exact integrals; and a result the caller keeps must not change when the function is called again
+    if nk % 3 == 0 and isinstance(V, np.ndarray) and V.shape == ref.shape and isinstance(N, np.ndarray) and N.shape == nref.shape:
+        if V.flags.writeable:
+            V *= 0.25
+        V2 = cm.call(point_charge_integral, cm.build(shells), cm.rep_typed(pts, rkind), np.array(q, dtype=int) if qint else cm.rep(q, qk))
+        cm.compare(V2, ref, TOL, "point_charge_integral (same request again, after the caller overwrote the first result)", "point_charge_again", viols, errs, scale=scale, ls=cm.ls_of(shells))
+        N0 = N.copy()
+        N2 = cm.call(nuclear_electron_attraction_integral, cm.build(shells), cm.rep_typed(pts, rkind), -0.5 * q)
+        cm.compare(N2, -0.5 * nref, TOL, "nuclear_electron_attraction_integral (second call, other charges)", "nuclear_again", viols, errs, scale=0.5 * scale.sum(axis=2))
+        evals += 2
+        if not np.array_equal(N, N0):
+            viols.append(cm.viol("the nuclear-attraction matrix returned by the first call changed when the function was called again", "nuclear_retained"))
     ls = cm.ls_of(shells)
     near = any(np.linalg.norm(pts - np.array(s["c"]), axis=1).min() < 1.0 for s in shells)
     nontrivial = near and (len(set(ls)) > 1 or len(ls) == 1)
